@@ -40,7 +40,10 @@ def run(ctx):
         "char::is_whitespace is ported as the Unicode White_Space table of Rust 1.95",
     ]
     ctx.assumptions += [
-        "well-formed corpus file: valid UTF-8; the tests of a file are what the real parse_tests returns for it; "
+        "well-formed corpus file: valid UTF-8; its tests (with the expectations a correct update writes), written in the writer's "
+        "canonical form, read back by the specification of a delimiter line as the same names / attributes / inputs / delimiter "
+        "lengths (judge guard canonB; implied by SimpleS, the hypothesis of the theorems; measured: holds on > 99 % of the explored "
+        "files); that the real reader returns the tests delimited in the file is itself judged (read-differs); "
         "the idempotence clause is judged only when every S-expression expectation is empty or one parenthesised group",
         "a run stopped by :fail-fast or an unknown :language(..) writes nothing: such a file counts as not updated "
         "(update_passes is judged only on files that were written)",
@@ -235,7 +238,9 @@ def run(ctx):
         "evaluations": evals, "distinct_nontrivial": len(distinct),
         "rule": "one evaluation = one corpus file (committed corpus first, then generated: 1-20 tests, names with punctuation/"
                 "newlines/non-ASCII, attribute lines :skip/:error/:fail-fast/:language/:cst/:platform + malformed ones, delimiter "
-                "lengths 3-12 (closing may differ), 40% with a suffix, inputs for zoo languages stmt/lst incl. delimiter-like lines and "
+                "lengths 3-12 (closing may differ), 40% with a suffix, inputs for zoo languages stmt/lst incl. delimiter-like lines and near-delimiter lines (dash/equals runs of length "
+                "divider-1/=/+1.. followed by blanks, tabs, CR, Unicode white space, the suffix with white space around it, prefixes/"
+                "extensions of the suffix, leading white space; also inside expectations) and "
                 "erroneous inputs, expectations right/wrong/missing/badly indented/commented/junk, CRLF; 40% of the files updated through a "
                 "name filter, TestOptions.include or .exclude, so that some tests are carried over unprocessed) run through the real "
                 "parse_tests, run_tests_at_path(update=true), parse_tests, run_tests_at_path(update=true); non-trivial := >= 2 tests and "
